@@ -96,6 +96,11 @@ const std::vector<GrammarSpec> &handwritten_bad() {
   v.push_back(textg("bad-syntax", "TERM;\nE : ( \n", {}, 3));
   v.push_back(textg("bad-syntax2", "TERM a=1\nE : a # x (0\n ;\n", {}, 3));
   v.push_back(textg("bad-comment", "TERM;\nE : 'a' /* unfinished\n ;\n", {}, 3));
+  // lexical errors: characters that are no token of the description language
+  v.push_back(textg("bad-char-at", "TERM;\nE : 'a' @ 'b'\n ;\n", {}, 3));
+  v.push_back(textg("bad-char-slash", "TERM a=1;\nS : a / a\n ;\n", {}, 3));
+  v.push_back(textg("bad-char-dollar", "TERM;\nS : 'a' $ 'b' # 0\n ;\n", {}, 3));
+  v.push_back(textg("bad-char-quote", "TERM;\nS : 'ab'\n ;\n", {}, 3));
   v.push_back(readg("bad-fixedname", {{"error", 5}, {"a", 6}}, {R("s", {"a"})}, 4));
   v.push_back(readg("bad-fixedname2", {{"a", 6}}, {R("$S", {"a"})}, 4));
   v.push_back(readg("bad-repterm", {{"a", 1}, {"b", 2}, {"a", 3}}, {R("s", {"a"})}, 5));
